@@ -1,1 +1,7 @@
 import Ypv.Props.C07
+#print axioms Ypv.C07.search_eq_found
+#print axioms Ypv.C07.search_eq_found_node
+#print axioms Ypv.C07.found_is_position
+#print axioms Ypv.C07.expand_is_leaves
+#print axioms Ypv.C07.expand_lists_leaves_only
+#print axioms Ypv.C07.no_expand_is_self
